@@ -31,6 +31,8 @@ func (runInfo *runInfoStruct) funcExpr() {
 		// run function statements
 		runInfo.runSingleStmt()
 		if len(runInfo.defers) > 0 {
+			// the result is the value at the end of the body, deferred calls do not alter it
+			runInfo.rv = detachValue(runInfo.rv)
 			runInfo.runDefers()
 		}
 		if runInfo.err != nil && runInfo.err != ErrReturn {
